@@ -760,8 +760,16 @@ def _opt(draw, f, name, strat, p_absent=0.15):
     f[name] = draw(strat)
 
 
+def _blob(aligned, base, max_units=4, max_len=40):
+  """payload of a variable-length element: aligned=True keeps base+len a multiple of 8 (what the specification
+  pads to), aligned=False draws every length 0..max_len, i.e. all residues of the alignment"""
+  if aligned:
+    return st.integers(0, max_units).flatmap(lambda n: st.binary(min_size=(-base) % 8 + 8 * n, max_size=(-base) % 8 + 8 * n))
+  return st.one_of(st.integers(0, 15).flatmap(lambda n: st.binary(min_size=n, max_size=n)), st.binary(max_size=max_len))
+
+
 @st.composite
-def action(draw, nicira=False, kinds=None):
+def action(draw, nicira=False, kinds=None, aligned=True):
   kinds = list(kinds or OF10_ACTION_KINDS)
   kind = draw(st.sampled_from(kinds))
   f = {}
@@ -788,15 +796,15 @@ def action(draw, nicira=False, kinds=None):
     _opt(draw, f, "tp_port", uint(16))
   elif kind == "ofp_action_vendor_generic":
     _opt(draw, f, "vendor", uint(32).filter(lambda v: v != R.NX_VENDOR_ID))
-    _opt(draw, f, "body", st.integers(0, 4).flatmap(lambda n: st.binary(min_size=8 * n, max_size=8 * n)))
+    _opt(draw, f, "body", _blob(aligned, 8))
   elif kind == "ofp_action_generic":
     f["type"] = draw(st.one_of(st.sampled_from([12, 0xfffe, 0x8000]), st.integers(12, 0xfffe)))
-    _opt(draw, f, "data", st.integers(0, 3).flatmap(lambda n: st.binary(min_size=4 + 8 * n, max_size=4 + 8 * n)))
+    _opt(draw, f, "data", _blob(aligned, 4, 3))
   return {"k": kind, "f": f}
 
 
-def actions(max_size=6):
-  return st.lists(action(), max_size=max_size)
+def actions(max_size=6, aligned=True):
+  return st.lists(action(aligned=aligned), max_size=max_size)
 
 
 @st.composite
@@ -814,8 +822,8 @@ def phy_port(draw):
 
 @st.composite
 def queue_prop(draw, safe=True, kinds=None):
-  kinds = kinds if kinds else ["ofp_queue_prop_min_rate"] if safe else ["ofp_queue_prop_min_rate"] * 6 + ["ofp_queue_prop_none",
-                                                                                      "ofp_queue_prop_generic"]
+  kinds = kinds if kinds else ["ofp_queue_prop_min_rate"] if safe else ["ofp_queue_prop_min_rate"] * 3 + [
+      "ofp_queue_prop_none"] * 2 + ["ofp_queue_prop_generic"] * 3
   kind = draw(st.sampled_from(kinds))
   f = {}
   if kind == "ofp_queue_prop_min_rate":
@@ -823,7 +831,7 @@ def queue_prop(draw, safe=True, kinds=None):
   else:
     if kind == "ofp_queue_prop_generic":
       f["property"] = draw(st.one_of(st.sampled_from([2, 0xffff]), st.integers(2, 0xffff)))
-    _opt(draw, f, "data", st.integers(0, 2).flatmap(lambda n: st.binary(min_size=4 + 8 * n, max_size=4 + 8 * n)))
+    _opt(draw, f, "data", _blob(safe, 4, 2))        # unsafe: every length 0..40, all residues mod 8
   return {"k": kind, "f": f}
 
 
@@ -831,7 +839,7 @@ def queue_prop(draw, safe=True, kinds=None):
 def packet_queue(draw, safe=True):
   f = {}
   _opt(draw, f, "queue_id", uint(32))
-  _opt(draw, f, "properties", st.lists(queue_prop(safe), max_size=3))
+  _opt(draw, f, "properties", st.lists(queue_prop(safe), max_size=4))
   return f
 
 
@@ -859,7 +867,7 @@ def stats_request_body(draw, safe=True, generic=False, kinds=None):
 
 
 @st.composite
-def stats_reply_entry(draw, kind):
+def stats_reply_entry(draw, kind, aligned=True):
   f = {}
   if kind == "ofp_desc_stats":
     for n, w in (("mfr_desc", 256), ("hw_desc", 256), ("sw_desc", 256), ("serial_num", 32), ("dp_desc", 256)):
@@ -870,7 +878,7 @@ def stats_reply_entry(draw, kind):
     for n, b in (("duration_sec", 32), ("duration_nsec", 32), ("priority", 16), ("idle_timeout", 16),
                  ("hard_timeout", 16), ("cookie", 64), ("packet_count", 64), ("byte_count", 64)):
       _opt(draw, f, n, uint(b), 0.3)
-    _opt(draw, f, "actions", actions(4))
+    _opt(draw, f, "actions", actions(4, aligned=aligned))
   elif kind == "ofp_aggregate_stats":
     _opt(draw, f, "packet_count", uint(64))
     _opt(draw, f, "byte_count", uint(64))
@@ -943,7 +951,7 @@ def message(draw, direction="any", safe=True, kinds=None, max_list=6):
     _opt(draw, f, "desc", phy_port())
   elif kind == "ofp_packet_out":
     _opt(draw, f, "in_port", uint(16))
-    _opt(draw, f, "actions", actions(max_list))
+    _opt(draw, f, "actions", actions(max_list, aligned=safe))
     if draw(st.booleans()):
       _opt(draw, f, "data", payload())          # unbuffered: carries the frame
       if draw(st.booleans()):
@@ -955,7 +963,7 @@ def message(draw, direction="any", safe=True, kinds=None, max_list=6):
     for n, b in (("cookie", 64), ("command", 16), ("idle_timeout", 16), ("hard_timeout", 16), ("priority", 16),
                  ("buffer_id", 32), ("out_port", 16), ("flags", 16)):
       _opt(draw, f, n, uint(b), 0.3)
-    _opt(draw, f, "actions", actions(max_list))
+    _opt(draw, f, "actions", actions(max_list, aligned=safe))
   elif kind == "ofp_port_mod":
     _opt(draw, f, "port_no", uint(16))
     _opt(draw, f, "hw_addr", macs())
@@ -993,11 +1001,11 @@ def message(draw, direction="any", safe=True, kinds=None, max_list=6):
       bk = draw(st.sampled_from(rk))
       t = R.stats_type_of(bk, True)
       if R.stats_reply_is_array(t):
-        f["body"] = draw(st.lists(stats_reply_entry(bk), max_size=max(4, max_list // 2)))
+        f["body"] = draw(st.lists(stats_reply_entry(bk, aligned=safe), max_size=max(4, max_list // 2)))
         if not f["body"] or draw(st.booleans()):
           f["type"] = t
       else:
-        f["body"] = draw(stats_reply_entry(bk))
+        f["body"] = draw(stats_reply_entry(bk, aligned=safe))
         if draw(st.booleans()):
           f["type"] = t
   return {"k": kind, "f": f}
@@ -1128,13 +1136,13 @@ def nx_message(draw, kinds=None):
     for n, b in (("cookie", 64), ("command", 8), ("idle_timeout", 16), ("hard_timeout", 16), ("priority", 16),
                  ("buffer_id", 32), ("out_port", 16), ("flags", 16), ("table_id", 8)):
       _opt(draw, f, n, uint(b), 0.3)
-    _opt(draw, f, "actions", actions(3))
+    _opt(draw, f, "actions", actions(3, aligned=False))
   elif kind == "nx_flow_mod":
     for n, b in (("cookie", 64), ("command", 8), ("table_id", 8), ("idle_timeout", 16), ("hard_timeout", 16),
                  ("priority", 16), ("buffer_id", 32), ("out_port", 16), ("flags", 16)):
       _opt(draw, f, n, uint(b), 0.3)
     _opt(draw, f, "match", nx_match_entries())
-    _opt(draw, f, "actions", st.lists(st.one_of(action(), nx_action()), max_size=3))
+    _opt(draw, f, "actions", st.lists(st.one_of(action(aligned=False), nx_action()), max_size=3))
   elif kind == "nxt_packet_in":
     data = draw(payload())
     n = len(R.expand_bytes(data))
